@@ -1,3 +1,4 @@
+import DaskModel.Generated.ChunkTolerance
 /-
 K3 (integer-list indexing): the planning part of `dask/array/slicing.py::take` and of
 `dask/array/_shuffle.py::_shuffle` along the indexed axis.
@@ -8,7 +9,8 @@ len(index) == full_length and index[0] == 0
    and np.all(np.diff(index) == 1)      (no-op shortcut)      `takeIsIdentity n index`
 average_chunk_size = max(1, int(full_length / nblocks))       `avgChunk n nblocks`
 [index[i:i+avg] for i in range(0, len(index), avg)]           `groupsOf avg index`
-chunk_size_limit = int(sum/len * tolerance)  (tolerance 1.25) `chunkLimit n nblocks`  (exact rational floor, num/den = 5/4)
+chunk_size_limit = int(sum/len * tolerance)                  `chunkLimit n nblocks`  (exact rational floor; tolerance =
+                                                              tolNum/tolDen extracted from dask.yaml, Generated/ChunkTolerance)
 the "how many groups fit into one chunk" loop of _shuffle     `mergeGroups`
 output chunks along the axis                                  `takeChunks`
 Import-free (linked into the native driver).
@@ -40,11 +42,12 @@ def groupsOfAux (avg : Nat) : Nat → List Int → List (List Int)
 
 def groupsOf (avg : Nat) (index : List Int) : List (List Int) := groupsOfAux avg index.length index
 
-/-- `int(sum(chunks) / len(chunks) * 1.25)` as an exact rational floor -/
-def chunkLimit (n nblocks : Nat) : Nat := (n * 5) / (nblocks * 4)
+/-- `int(sum(chunks) / len(chunks) * tolerance)` as an exact rational floor (`array.chunk-size-tolerance`) -/
+def chunkLimit (n nblocks : Nat) : Nat :=
+  (n * Dask.Generated.ChunkTolerance.tolNum) / (nblocks * Dask.Generated.ChunkTolerance.tolDen)
 
 /-- the merging loop of `_shuffle`; `cur` is `current_chunk`, result in order.
-    `len(current) > limit / 1.25`  ⇔  `5 * len(current) > 4 * limit` -/
+    `len(current) > limit / tolerance`  ⇔  `tolNum * len(current) > tolDen * limit` -/
 def mergeGroups (limit : Nat) : List (List Int) → List Int → List (List Int)
   | [], cur => if cur.length > 0 then [cur] else []
   | idx :: rest, cur =>
@@ -52,7 +55,7 @@ def mergeGroups (limit : Nat) : List (List Int) → List Int → List (List Int)
       cur :: mergeGroups limit rest idx
     else
       let cur' := cur ++ idx
-      if 5 * cur'.length > 4 * limit then cur' :: mergeGroups limit rest []
+      if Dask.Generated.ChunkTolerance.tolNum * cur'.length > Dask.Generated.ChunkTolerance.tolDen * limit then cur' :: mergeGroups limit rest []
       else mergeGroups limit rest cur'
 
 /-- the takers of the output chunks along the axis (each lists the global positions it reads) -/
